@@ -152,7 +152,9 @@ def gen_history(rng, tier):
                 mode, tr = "extra_key", [t for t in tr if t == "id"]
             elif bad < 0.18 and n > 0:
                 mode, tr = "bad_len", []
-            elif bad < 0.24 and n > 0:
+            elif bad < 0.21 and n > 0:
+                mode, tr = "bad_shape", [t for t in tr if t == "id"]      # right keys and lengths, one field with rows of the wrong shape
+            elif bad < 0.27 and n > 0:
                 mode = "oob"
                 idxs[rng.randrange(n)] = cur_cap + rng.randrange(3)
             ops.append(["add", idxs, ids, mode, tr])
@@ -259,6 +261,14 @@ def run_impl(case):
                 n0 = layout[0][0]
                 data[n0] = np.concatenate([data[n0], data[n0][:1]])
                 xs_model = xs_model + [xs_model[0]]
+            elif mode == "bad_shape":
+                # the LAST numeric field, so that a store written field by field would already hold the earlier ones
+                num = [nm for nm, sh, dd in layout if dd is not object and np.dtype(dd).kind != "O"]
+                if num:
+                    a = np.asarray(data[num[-1]])
+                    data[num[-1]] = np.concatenate([a.reshape(len(ids), -1)] * 2 + [a.reshape(len(ids), -1)[:, :1]], axis=1)
+                else:
+                    mode = "ok"
             ts = [make_transform(k, layout, log) for k in tr]
             try:
                 info = store.add(np.array(idxs, dtype=np.int32), data, {}, ts)
@@ -281,7 +291,7 @@ def run_impl(case):
             # transforms that were never reached (an earlier retrieve raised) still need a placeholder
             while len(tdesc) < len(tr):
                 tdesc.append([[], []])
-            mops.append([0, idxs, xs_model, mode not in ("missing_key", "extra_key"), tdesc])
+            mops.append([0, idxs, xs_model, mode not in ("missing_key", "extra_key", "bad_shape"), tdesc])
             outs.append(r)
         elif op[0] == "clear":
             store.clear()
